@@ -356,7 +356,8 @@ def first_iteration_bound(F, res, i, e, assume_nonempty):
     idx = e['args_val'][1]
     loopvars = [x for x in sym.subterms(idx) if isinstance(x, tuple) and x and x[0] == 'loop']
     if not loopvars:
-        return None
+        # the entry access of a rotated walk sits in front of the loop: it is the entry itself
+        return try_bound(F, res, i, e, assume_nonempty=assume_nonempty)
     m = {}
     enter_index = None
     for j, ev in enumerate(res.events[:i]):
@@ -368,8 +369,18 @@ def first_iteration_bound(F, res, i, e, assume_nonempty):
     if len(m) != len(set(loopvars)) or enter_index is None:
         return None
     e0 = dict(e)
-    e0['args_val'] = [e['args_val'][0], sym.subst(idx, m)]
+    first = sym.subst(idx, m)
+    e0['args_val'] = [e['args_val'][0], first]
     why = try_bound(F, res, enter_index, e0, assume_nonempty=assume_nonempty)
+    if why is None:
+        # the walk may have been rotated: its first in-loop index is then itself an entry of the same table (read before the
+        # loop at an index that is audited as a site of its own) - the inductive TRUSTED-DATA case, not an entry from outside
+        tab = e['args_val'][0]
+        def from_table(x):
+            return isinstance(x, tuple) and x and ((x[0] == 'call' and isinstance(x[1], str) and x[1].endswith(('::get_unchecked', '::get_unchecked_mut', 'Index::index')) and x[2] and x[2][0] == tab)
+                                                   or (x[0] == 'index' and x[1] == tab))
+        if sym.contains(first, from_table):
+            return 'first in-loop index %s is read from the table itself (inductive step, TRUSTED-DATA)' % sym.show(first)[:60]
     return why
 
 
